@@ -152,6 +152,85 @@ def shapes_ok(ttns):
     return all(len(n.qn) == n.tensor.shape[-1] for n in ttns.node_list) and ttns.root.tensor.shape[-1] == 1
 
 
+def build_product(desc):
+    """desc = {"bases": [["mev", n] | ["elec"] | ["spin"] | ["sho", n]], "shape": "linear" | "binary", "cond": {dof: int | [coeffs]}}
+    returns (BasisTree, TTNS(basis, condition))"""
+    from renormalizer import BasisHalfSpin, BasisSimpleElectron, BasisSHO, BasisMultiElectronVac
+    from renormalizer.tn import BasisTree
+    bases = []
+    for i, b in enumerate(desc["bases"]):
+        if b[0] == "mev":
+            bases.append(BasisMultiElectronVac(["x%d_%d" % (i, j) for j in range(b[1])]))
+        elif b[0] == "elec":
+            bases.append(BasisSimpleElectron("x%d" % i))
+        elif b[0] == "spin":
+            bases.append(BasisHalfSpin("x%d" % i, sigmaqn=[0, 1]))
+        else:
+            bases.append(BasisSHO("x%d" % i, omega=1.0, nbas=b[1]))
+    bt = BasisTree.linear(bases) if desc["shape"] == "linear" else BasisTree.binary(bases)
+    return bt, TTNS(bt, desc["cond"])
+
+
+def run_product_case(case_seed, exports, fails, stats):
+    """TTNS(basis, condition): integer conditions and coefficient VECTORS over basis states of one charge (charged
+    multi-state sites, vibrations); the dense vector's sector must be the stored qntot and the labels must be valid"""
+    rng = random.Random(case_seed)
+    nb = rng.randint(2, 5)
+    bases, cond, sector = [], {}, 0
+    for i in range(nb):
+        r = rng.random()
+        b = ["mev", rng.choice([2, 2, 3])] if r < 0.4 else (["elec"] if r < 0.6 else (["spin"] if r < 0.8 else ["sho", 3]))
+        bases.append(b)
+        nbas = {"mev": lambda: b[1] + 1, "elec": lambda: 2, "spin": lambda: 2, "sho": lambda: b[1]}[b[0]]()
+        sig = {"mev": lambda: [0] + [1] * b[1], "elec": lambda: [0, 1], "spin": lambda: [0, 1], "sho": lambda: [0] * b[1]}[b[0]]()
+        c = rng.randrange(nbas)
+        key = "x%d_0" % i if b[0] == "mev" else "x%d" % i
+        same = [j for j in range(nbas) if sig[j] == sig[c]]
+        sector += sig[c]
+        if len(same) >= 2 and rng.random() < 0.7:
+            vec = [0.0] * nbas
+            for j in sorted(rng.sample(same, rng.randint(2, len(same)))):
+                vec[j] = round(rng.choice([-1, 1]) * rng.uniform(0.3, 1.0), 3)
+            cond[key] = vec
+            stats["vector_conditions"] = stats.get("vector_conditions", 0) + 1
+        elif c or rng.random() < 0.5:
+            cond[key] = int(c)
+    desc = {"bases": bases, "shape": rng.choice(["linear", "binary"]), "cond": cond}
+    lines = ["desc = json.loads(%r)" % json.dumps(desc), "bt, x = N.build_product(desc)", "charges = N.config_charges(x)"]
+    try:
+        bt, st = build_product(desc)
+    except Exception as ex:
+        fails.append({"key": "tree-constructor:exception", "detail": {"desc": desc, "exception": repr(ex), "tb": traceback.format_exc()[-500:]},
+                      "repro": PRELUDE + "\n".join(lines[:2]) + "\n", "case_seed": case_seed})
+        return
+    charges = config_charges(st)
+    stats["product_cases"] = stats.get("product_cases", 0) + 1
+    objs = [("x", st, "constructor[product]")]
+    try:
+        c2 = st.copy().canonicalise()
+        lines2 = "y = x.copy().canonicalise()"
+        objs.append(("y", c2, "cano[product]"))
+    except Exception as ex:
+        lines2 = ""
+    for name, obj, what in objs:
+        stats["checks"] = stats.get("checks", 0) + 1
+        stats.setdefault("ops", {})
+        stats["ops"][what] = stats["ops"].get(what, 0) + 1
+        lk, nrm = leak(obj, charges, [sector])
+        qt = [int(v) for v in np.asarray(obj.qntot).reshape(-1)]
+        ll = lines + ([lines2] if name == "y" else [])
+        if not (lk <= 1e-10) or qt != [sector] or not shapes_ok(obj) or nrm < 1e-12:
+            fails.append({"key": "tree-%s:leak" % what.split("[")[0],
+                          "detail": {"op": what, "desc": desc, "sector_of_the_dense_vector": [sector], "qntot_stored": qt, "leak": lk, "norm": nrm},
+                          "repro": PRELUDE + "\n".join(ll) + "\nlk, nrm = N.leak(%s, charges, %r)\nqt = [int(v) for v in np.asarray(%s.qntot).reshape(-1)]\n"
+                                   "print('dense weight outside sector %r:', lk, '; stored qntot', qt)\nsys.exit(1 if (not lk <= 1e-10) or qt != %r else 0)\n"
+                                   % (name, [sector], name, [sector], [sector]),
+                          "case_seed": case_seed})
+            return
+        exports.append({"what": what, "ncomp": 1, "qtot": [sector], "tree": export_tree(obj), "case": case_seed, "name": name,
+                        "repro_lines": PRELUDE + "\n".join(ll) + "\n", "nnodes": len(obj.node_list), "maxbond": int(max(obj.bond_dims))})
+
+
 def run_case(case_seed, exports, fails, stats):
     rng = random.Random(case_seed)
     spec = gen_spec(rng)
@@ -321,6 +400,9 @@ def main():
     exports, fails, stats = [], [], {}
     for k in range(ncases):
         try:
+            if k % 3 == 2:
+                run_product_case(seed * 100043 + k, exports, fails, stats)
+                continue
             run_case(seed * 100043 + k, exports, fails, stats)
         except Exception as ex:
             fails.append({"key": "tree-generator:exception", "detail": {"exception": repr(ex), "tb": traceback.format_exc()[-1000:]}, "repro": None, "case_seed": seed * 100043 + k})
